@@ -706,6 +706,20 @@ wait:
 			class = c
 		}
 	}
+	if class == "crash:panic" && panicOutsideDesync(stderr) {
+		// The panicking goroutine holds no frame of the code under test: the harness itself gave up (no free port,
+		// no file descriptors, no space ...). That says nothing about the property: run the case once more alone,
+		// and if it dies the same way again report it as inconclusive, never as a violation.
+		w := saveWitness(cfg.Prop, seed, caseIdx, "harness-panic", stderr)
+		os.RemoveAll(cdir)
+		if !retry {
+			time.Sleep(2 * time.Second)
+			r2, v2, _ := runChildOpt(cfg, self, tier, seed, work, bi+2000000, caseIdx, caseIdx+1, extraEnv, replay, true)
+			return append(recs, r2...), v2, caseIdx + 1
+		}
+		recs = append(recs, Record{Case: caseIdx, Info: lastInfo, Inconcl: "the harness panicked twice outside the code under test (" + firstLine(crashExcerpt(stderr)) + "; output: " + w + ")"})
+		return recs, nil, caseIdx + 1
+	}
 	detail := crashExcerpt(stderr)
 	if finished[caseIdx] {
 		// died between cases (e.g. leaked goroutine panicking later): attribute to the batch
@@ -715,6 +729,32 @@ wait:
 	viol = append(viol, Violation{Class: class, Detail: detail + "\nfull child output: " + wpath, Case: caseIdx, Info: lastInfo})
 	os.RemoveAll(cdir)
 	return recs, viol, caseIdx + 1
+}
+
+// panicOutsideDesync: the stack of the goroutine that panicked (the first one printed after the panic message) has no
+// frame in the code under test.
+func panicOutsideDesync(stderr string) bool {
+	i := strings.Index(stderr, "panic:")
+	if i < 0 || strings.Contains(stderr[:i], "fatal error:") {
+		return false
+	}
+	rest := stderr[i:]
+	g := strings.Index(rest, "\ngoroutine ")
+	if g < 0 {
+		return false
+	}
+	block := rest[g+1:]
+	if e := strings.Index(block, "\n\n"); e >= 0 {
+		block = block[:e]
+	}
+	return !strings.Contains(block, "github.com/folbricht/desync") && strings.Contains(block, "verif/")
+}
+
+func firstLine(s string) string {
+	if i := strings.IndexByte(s, '\n'); i >= 0 {
+		return s[:i]
+	}
+	return s
 }
 
 func saveWitness(prop string, seed int64, caseIdx int, class, stderr string) string {
